@@ -65,7 +65,7 @@ package gtab
 //@   requires ctx != nil && 0 <= a && a < b && b <= len(ctx.seq) && stackinv(ctx) && keepOK(ctx) && llOK(ctx)
 //@   ensures next >= -1 && next <= len(ctx.seq) && stackinv(ctx) && len(ctx.seq) <= 1099511627776
 //@   ensures next < 0 ==> len(ctx.stack) == old(len(ctx.stack)) && len(ctx.seq) == old(len(ctx.seq))
-//@   modifies ctx.seq, ctx.stack, ctx.scratch, all(nested), all(glyph.Info), allelems(int), allelems(*nested), allelems(rune), allelems(SeqLookup)
+//@   modifies ctx.seq, ctx.stack, ctx.scratch, all(nested), allelems(glyph.Info), allelems(int), allelems(*nested), allelems(rune), allelems(SeqLookup)
 
 //@ func newKeepFunc(meta *LookupMetaInfo, gdef *gdef.Table) (k *keepFunc)   props: C07
 //@   requires meta != nil
@@ -77,7 +77,7 @@ package gtab
 //@   requires forall j int :: 0 <= j && j < len(ss) ==> ss[j] != nil
 //@   ensures next >= -1 && next <= len(ctx.seq) && stackinv(ctx) && len(ctx.seq) <= 1099511627776
 //@   ensures next < 0 ==> len(ctx.stack) == old(len(ctx.stack)) && len(ctx.seq) == old(len(ctx.seq))
-//@   modifies ctx.seq, ctx.stack, ctx.scratch, all(nested), all(glyph.Info), allelems(int), allelems(*nested), allelems(rune), allelems(SeqLookup)
+//@   modifies ctx.seq, ctx.stack, ctx.scratch, all(nested), allelems(glyph.Info), allelems(int), allelems(*nested), allelems(rune), allelems(SeqLookup)
 //@   loop 0
 //@     invariant stackinv(ctx) && keepOK(ctx) && llOK(ctx) && len(ctx.stack) == old(len(ctx.stack)) && len(ctx.seq) == old(len(ctx.seq)) && b <= len(ctx.seq) && pos < b && 0 <= pos
 //@     invariant forall j int :: 0 <= j && j < len(ss) ==> ss[j] != nil
@@ -87,7 +87,7 @@ package gtab
 //@   requires ctx.lookup != nil && forall j int :: 0 <= j && j < len(ctx.lookup.Subtables) ==> ctx.lookup.Subtables[j] != nil
 //@   ensures len(ctx.stack) == 0 && next >= 0
 //@   ensures keepOK(ctx) && llOK(ctx) && ctx.lookup == old(ctx.lookup) && ctx.keep == old(ctx.keep) && ctx.ll == old(ctx.ll)
-//@   modifies ctx.seq, ctx.stack, ctx.scratch, ctx.lookup, ctx.keep, all(nested), all(glyph.Info), allelems(int), allelems(*nested), allelems(rune), allelems(SeqLookup)
+//@   modifies ctx.seq, ctx.stack, ctx.scratch, ctx.lookup, ctx.keep, all(nested), allelems(glyph.Info), allelems(int), allelems(*nested), allelems(rune), allelems(SeqLookup)
 //@   loop 0
 //@     invariant next >= 0 && stackinv(ctx) && keepOK(ctx) && llOK(ctx) && 1 <= numActions && numActions <= 64 && ctx.lookup == old(ctx.lookup) && ctx.keep == old(ctx.keep) && ctx.ll == old(ctx.ll)
 //@     decreases 64 - numActions, len(ctx.stack)
@@ -98,10 +98,60 @@ package gtab
 //@ func (ctx *Context) Apply(seq []glyph.Info) (res []glyph.Info)   props: C07 C16
 //@   requires ctx != nil && llOK(ctx) && len(ctx.stack) == 0
 //@   ensures len(ctx.stack) == 0 && llOK(ctx) && ctx.ll == old(ctx.ll) && ctx.lookups == old(ctx.lookups) && ctx.gdef == old(ctx.gdef)
-//@   modifies ctx.seq, ctx.stack, ctx.scratch, ctx.lookup, ctx.keep, all(nested), all(glyph.Info), allelems(int), allelems(*nested), allelems(rune), allelems(SeqLookup)
+//@   modifies ctx.seq, ctx.stack, ctx.scratch, ctx.lookup, ctx.keep, all(nested), allelems(glyph.Info), allelems(int), allelems(*nested), allelems(rune), allelems(SeqLookup)
 //@   loop 0
 //@     invariant llOK(ctx) && len(ctx.stack) == 0 && ctx.ll == old(ctx.ll) && ctx.lookups == old(ctx.lookups) && ctx.gdef == old(ctx.gdef)
 //@   loop 1
 //@     invariant llOK(ctx) && len(ctx.stack) == 0 && ctx.ll == old(ctx.ll) && ctx.lookups == old(ctx.lookups) && ctx.gdef == old(ctx.gdef)
 //@     invariant 0 <= pos && keepOK(ctx) && ctx.lookup == ctx.ll[lookupIndex] && lookupIndex < len(ctx.ll)
 //@     decreases len(ctx.seq) - pos
+
+// ---- GSUB leaf subtables (single / alternate substitution) ----
+// The coverage index of a covered glyph is a valid index into the substitute
+// array (established by the reader).
+//@ func (l *Gsub1_1) apply(ctx *Context, a int, b int) (next int)   props: C06 C07
+//@   requires l != nil && ctx != nil && 0 <= a && a < b && b <= len(ctx.seq) && stackinv(ctx) && keepOK(ctx) && llOK(ctx)
+//@   ensures next >= -1 && next <= len(ctx.seq) && stackinv(ctx) && len(ctx.seq) == old(len(ctx.seq)) && len(ctx.stack) == old(len(ctx.stack))
+//@   ensures (next == -1) == !old(has(l.Cov, ctx.seq[a].GID))
+//@   ensures next != -1 ==> next == a + 1 && ctx.seq[a].GID == uint16(old(ctx.seq[a].GID) + l.Delta)
+//@   ensures forall i int :: 0 <= i && i < len(ctx.seq) && (i != a || next == -1) ==> ctx.seq[i].GID == old(ctx.seq[i].GID)
+//@   modifies ctx.seq[*]
+
+//@ func (l *Gsub1_2) apply(ctx *Context, a int, b int) (next int)   props: C06 C07
+//@   requires l != nil && ctx != nil && 0 <= a && a < b && b <= len(ctx.seq) && stackinv(ctx) && keepOK(ctx) && llOK(ctx)
+//@   requires forall g uint16 :: has(l.Cov, g) ==> 0 <= l.Cov[g] && l.Cov[g] < len(l.SubstituteGlyphIDs)
+//@   ensures next >= -1 && next <= len(ctx.seq) && stackinv(ctx) && len(ctx.seq) == old(len(ctx.seq)) && len(ctx.stack) == old(len(ctx.stack))
+//@   ensures (next == -1) == !old(has(l.Cov, ctx.seq[a].GID))
+//@   ensures next != -1 ==> next == a + 1 && ctx.seq[a].GID == l.SubstituteGlyphIDs[l.Cov[old(ctx.seq[a].GID)]]
+//@   ensures forall i int :: 0 <= i && i < len(ctx.seq) && (i != a || next == -1) ==> ctx.seq[i].GID == old(ctx.seq[i].GID)
+//@   modifies ctx.seq[*]
+
+//@ func (l *Gsub3_1) apply(ctx *Context, a int, b int) (next int)   props: C06 C07
+//@   requires l != nil && ctx != nil && 0 <= a && a < b && b <= len(ctx.seq) && stackinv(ctx) && keepOK(ctx) && llOK(ctx)
+//@   requires forall g uint16 :: has(l.Cov, g) ==> 0 <= l.Cov[g] && l.Cov[g] < len(l.Alternates)
+//@   ensures next >= -1 && next <= len(ctx.seq) && stackinv(ctx) && len(ctx.seq) == old(len(ctx.seq)) && len(ctx.stack) == old(len(ctx.stack))
+//@   ensures next != -1 ==> next == a + 1 && old(has(l.Cov, ctx.seq[a].GID)) && ctx.seq[a].GID == l.Alternates[l.Cov[old(ctx.seq[a].GID)]][0]
+//@   ensures forall i int :: 0 <= i && i < len(ctx.seq) && (i != a || next == -1) ==> ctx.seq[i].GID == old(ctx.seq[i].GID)
+//@   modifies ctx.seq[*]
+
+// fixStackInsert re-bases the pending actions after a glyph was replaced by
+// num glyphs.  Its effect on the stack invariant is ASSUMED here (not verified).
+//@ pred stackinvShort(ctx *Context, d int) = forall k int :: 0 <= k && k < len(ctx.stack) ==> ctx.stack[k] != nil && 0 <= ctx.stack[k].EndPos && ctx.stack[k].EndPos <= len(ctx.seq) - d && forall i int :: 0 <= i && i < len(ctx.stack[k].InputPos) ==> 0 <= ctx.stack[k].InputPos[i] && ctx.stack[k].InputPos[i] < ctx.stack[k].EndPos
+//@ assume func (ctx *Context) fixStackInsert(pos int, num int)
+//@   requires ctx != nil && num >= 1 && 0 <= pos && stackinvShort(ctx, num - 1)
+//@   ensures stackinv(ctx) && len(ctx.stack) == old(len(ctx.stack))
+//@   modifies all(nested), allelems(int)
+
+// Multiple substitution: glyph a is replaced by the k >= 1 glyphs of its
+// sequence, the rest of the text keeps its order.
+//@ func (l *Gsub2_1) apply(ctx *Context, a int, b int) (next int)   props: C06 C07
+//@   opt assume_make=1
+//@   requires l != nil && ctx != nil && 0 <= a && a < b && b <= len(ctx.seq) && stackinv(ctx) && keepOK(ctx) && llOK(ctx)
+//@   requires forall g uint16 :: has(l.Cov, g) ==> 0 <= l.Cov[g] && l.Cov[g] < len(l.Repl)
+//@   ensures next >= -1 && next <= len(ctx.seq) && stackinv(ctx) && len(ctx.seq) <= 1099511627776
+//@   ensures next < 0 ==> len(ctx.stack) == old(len(ctx.stack)) && len(ctx.seq) == old(len(ctx.seq))
+//@   ensures next >= 0 ==> old(has(l.Cov, ctx.seq[a].GID)) && next == a + len(l.Repl[l.Cov[old(ctx.seq[a].GID)]]) && len(ctx.seq) == old(len(ctx.seq)) + len(l.Repl[l.Cov[old(ctx.seq[a].GID)]]) - 1
+//@   modifies ctx.seq, all(nested), allelems(glyph.Info), allelems(int)
+//@   loop 0
+//@     invariant 1 <= i && i <= k && k == len(repl) && len(seq) == len(ctx.seq) + k - 1 && a + k <= len(seq) && stackinv(ctx) && len(seq) <= 1099511627776
+//@     decreases k - i
